@@ -39,11 +39,21 @@ def _nt_identity(Yl, Xl):
 
 
 def oracle_identity(case, rec):
-    Y, X = gens.materialize_pair(case)
+    if 'lagged' in case:
+        _, Ya, Xa = gens.build_lagged(case['lagged'])       # overlapping int32 views of one buffer
+        Y, X = Ya.astype(np.int64), Xa.astype(np.int64)
+        rec.cls('overlapping-views')
+    else:
+        Y, X = gens.materialize_pair(case)
+        Ya, Xa = np.ascontiguousarray(Y, dtype=np.int32).copy(), np.ascontiguousarray(X, dtype=np.int32).copy()
     Yl, Xl = Y.tolist(), X.tolist()
     t = rm.tol(Y, X)
     ref = rm.corrected_ref(Yl, Xl)
-    got = mi(Y, X, True)
+    got = float(cut.mutual_info_estimator_numba(Ya, Xa, np.float32(1.0), True))
+    if len(Xl) <= 20000:
+        again = float(cut.mutual_info_estimator_numba(Ya, Xa, np.float32(1.0), True))
+        if abs(again - got) > t:
+            raise Violation(f'second corrected call on the same array objects gives {again!r}, the first gave {got!r}', kind='C03/identity')
     rec.nt(_nt_identity(Yl, Xl), key=[Yl, Xl] if len(Xl) <= 64 else case)
     if 'gen' in case:
         rec.cls('fam=' + case['gen']['fam'])
@@ -130,7 +140,7 @@ def oracle_ranking(case, rec):
                         f'(n={n}, seed={case["k"]})')
 
 
-ORACLES = {'C03/wide': oracle_identity, 'C03/identity': oracle_identity, 'C03/exhaustive': oracle_identity, 'C03/heuristic-flag': oracle_identity,
+ORACLES = {'C03/high-card': oracle_identity, 'C03/views': oracle_identity, 'C03/wide': oracle_identity, 'C03/identity': oracle_identity, 'C03/exhaustive': oracle_identity, 'C03/heuristic-flag': oracle_identity,
            'C03/corollaries': oracle_corollaries, 'C03/constant-feature': oracle_corollaries,
            'C03/identifier-feature': oracle_corollaries, 'C03/self': oracle_corollaries, 'C03/ranking': oracle_ranking}
 
@@ -204,6 +214,8 @@ def run(ctx):
         Clause('C03/identity', pair, oracle_identity, quick=1500, thorough=60000, quick_shards=4),
         Clause('C03/corollaries', corollary_case, oracle_corollaries, quick=600, thorough=20000, quick_shards=3),
         Clause('C03/ranking', planted_case, oracle_ranking, quick=48, thorough=3000, quick_shards=6),
+        Clause('C03/high-card', lambda: gens.highcard_pair(), oracle_identity, quick=24, thorough=600, quick_shards=8),
+        Clause('C03/views', lambda: gens.lagged_pair(), oracle_identity, quick=200, thorough=10000, quick_shards=2),
         Clause('C03/wide', lambda: gens.wide_pair(), oracle_identity, quick=2, thorough=32, quick_shards=2, thorough_shards=16),
     ]
     drive(ctx, clauses)
